@@ -15,11 +15,12 @@ TFnEnd == Ev.e = "FnEnd" /\ FnEnd(Ev.thr)
 TAtExit == Ev.e = "AtExit" /\ AtExit(Ev.thr, Ev.idx, Ev.on)
 TJoinRet == Ev.e = "JoinRet" /\ JoinRet(Ev.thr, Ev.rc)
 TJoinAllBegin == Ev.e = "JoinAllBegin" /\ UNCHANGED tvars
+TReInit == Ev.e = "ReInit" /\ UNCHANGED tvars     \* initialising the library again changes nothing observable
 TJoinAllRet == Ev.e = "JoinAllRet" /\ JoinAllRet(Ev.rc, Ev.count)
 TEnd == Ev.e = "End" /\ EndOk(Ev.live, Ev.unjoined)
 
 TNext == l <= TraceLen /\ l' = l + 1 /\
          (TReset \/ TSetup \/ TLaunch \/ TLaunchRet \/ TFnRan \/ TAtExitReg \/ TFnEnd \/ TAtExit \/ TJoinRet
-            \/ TJoinAllBegin \/ TJoinAllRet \/ TEnd)
+            \/ TJoinAllBegin \/ TReInit \/ TJoinAllRet \/ TEnd)
 TSpec == (l = 1 /\ TInit0) /\ [][TNext]_<<tvars, l>>
 =============================================================================
